@@ -138,6 +138,8 @@ def boundary_cases(rng):
     combos = [('all', [('adj', 'nonnegative'), ('valrange', None, 2)]), ('any', [('adj', 'negative'), ('valrange', 2, None)]),
               ('not', ('adj', 'positive')), ('all', [('adj', 'positive'), ('raise', 'boomA')]), ('any', [('adj', 'positive'), ('raise', 'boomB')]),
               ('not', ('raise', 'boomC')), ('all', [('const', 'kT', True), ('not', ('const', 'kF', False))])]
+    import gen as _gen
+    out += convprop.cases_from_pairs(_gen.raising_predicate_cases(rng), rng, 'raising-predicates')
     for cd in combos:
         term = ('cond', ('scalar', 'int'), cd)
         b = terms.build(term, rng)
@@ -187,7 +189,51 @@ def same_name_conditions(out):
     return n
 
 
+def shape_conditions(out):
+    """the stock conditions on a value's `shape` attribute: `shape(S)` holds exactly when value.shape equals S -- same rank, same
+    extents -- alone and under ~ / & / |; `broadcastable(S)` on the cases where its reading is beyond doubt.  The values are
+    dataclass instances with a `shape` field (numpy is not needed)."""
+    import typing as t
+    import pane
+    from pane import annotations as A
+    n = 0
+
+    class Arr(pane.PaneBase):
+        shape: t.Tuple[int, ...]
+    S22 = A.shape((2, 2))
+    rows = [
+        ('shape((2, 2))', S22, {(2, 2): True, (2, 2, 3): False, (2, 2, 1): False, (2,): False, (): False, (2, 3): False, (3, 2): False, (1, 2, 2): False}),
+        ('~shape((2, 2))', ~S22, {(2, 2): False, (2, 2, 3): True, (2,): True, (): True}),
+        ('shape((2, 2)) | shape((3,))', S22 | A.shape((3,)), {(2, 2): True, (3,): True, (3, 3): False, (2, 2, 2): False, (3, 1): False}),
+        ('shape(())', A.shape(()), {(): True, (1,): False, (0,): False}),
+        ('shape((0,))', A.shape((0,)), {(0,): True, (): False, (0, 0): False}),
+        ('broadcastable((2, 2))', A.broadcastable((2, 2)), {(2, 2): True, (1, 2): True, (2, 1): True, (2,): True, (1,): True, (3, 2): False, (3,): False, (2, 3): False}),
+    ]
+    with warnings.catch_warnings():
+        warnings.simplefilter('ignore')
+        for label, cond, table in rows:
+            ty = t.Annotated[Arr, cond]
+            for shp, want in table.items():
+                for ctx_label, T, data, pick in (('top', ty, {'shape': list(shp)}, lambda r: r), ('list element', t.List[ty], [{'shape': list(shp)}], lambda r: r[0])):
+                    n += 1
+                    try:
+                        r = pick(pane.from_data(data, T))
+                        got = True
+                    except pane.ConvertError:
+                        got = False
+                    except Exception as e:
+                        out.violation(f'C13:shape-condition:{type(e).__name__}', f'{label} on a value of shape {shp} ({ctx_label}) raised {type(e).__name__}: {str(e)[:120]}', {'condition': label, 'shape': list(shp)})
+                        continue
+                    if got != want:
+                        out.violation('C13:shape-condition', f'{label}: a value of shape {shp} ({ctx_label}) is {"accepted" if got else "rejected"}; the condition {"holds" if want else "does not hold"} for it',
+                                      {'condition': label, 'shape': list(shp), 'context': ctx_label})
+                    elif got and r.shape != shp:
+                        out.violation('C13:shape-condition:value-changed', f'{label}: result has shape {r.shape}, the input {shp}', {'condition': label, 'shape': list(shp)})
+    return n
+
+
 def run(ctx, out):
+    out.evaluations += shape_conditions(out)
     out.rule = ('(a) exhaustive boundary stream: every stock condition (sign conditions, finite, val_range, len_range, empty / '
                 'non-empty) x inner types x values at boundary -1/0/+1 (ints, floats, inf, nan, bool, 10**400), combinators '
                 'with raising members; (b) random condition expressions (and/or/not/all/any, raising and constant user '
